@@ -735,6 +735,22 @@ func (v *MaryTransactionOutputValue) UnmarshalCBOR(data []byte) error {
 	if _, err := cbor.Decode(data, &tmp); err != nil {
 		return err
 	}
+	// Output quantities are word64 in the ledger (multiasset<positive_coin>):
+	// reject negative values and values above 2^64-1
+	if tmp.Assets != nil {
+		for _, policyId := range tmp.Assets.Policies() {
+			for _, assetName := range tmp.Assets.Assets(policyId) {
+				quantity := tmp.Assets.Asset(policyId, assetName)
+				if quantity != nil &&
+					(quantity.Sign() < 0 || !quantity.IsUint64()) {
+					return fmt.Errorf(
+						"transaction output asset quantity out of range: %s",
+						quantity.String(),
+					)
+				}
+			}
+		}
+	}
 	*v = MaryTransactionOutputValue(tmp)
 	return nil
 }
